@@ -195,6 +195,7 @@ func runFlips(c *ev.Collector, plan *flipPlan) (key, what string) {
 			c.Inconclusive("cannot start leader: %v", err)
 			return
 		}
+		leader.keepRunning = true
 		defer leader.stopAsync()
 		leader.mustOK("SET", "flip", "seed", "POINT", "1", "1")
 	}
